@@ -148,13 +148,18 @@ def _decl_text(kind, d):
         if name is not None and name != d["type"]:
             head += " as %s" % name
         out.append(head + " {")
-        for f in d.get("fields", []):
+        fields = d.get("fields", [])
+        # the grammar lets extension fields and signal blocks come in any order: some bindings get their last field AFTER the blocks
+        late = 1 if d.get("signals") and len(fields) >= 2 and (len(fields) + len(d.get("signals"))) % 2 == 1 else 0
+        for f in fields[:len(fields) - late]:
             out.append("    %s: %s," % (f["name"], lit_text(f["value"])))
         for s in d.get("signals", []):
             out.append("    signal %s {" % s["name"])
             for f in s["fields"]:
                 out.append("        %s: %s," % (f["name"], lit_text(f["value"])))
             out.append("    },")
+        for f in fields[len(fields) - late:]:
+            out.append("    %s: %s," % (f["name"], lit_text(f["value"])))
         out.append("}")
     elif kind == "service":
         out.append("service %s @%d {" % (d["name"], d["id"]))
